@@ -612,11 +612,28 @@ func runC06(c *Ctx, r *Rec) {
 	r.floorSoft("D4-loop-progress", "loops", "no loop is left in the methods this rule looks at")
 }
 
+// firstStmt: the first statement that does something (declarations of locals without a call in
+// their initial values - the style that declares every local at the top - do nothing that can
+// panic or leave).
 func firstStmt(b *ast.BlockStmt) ast.Stmt {
-	if len(b.List) == 0 {
-		return nil
+	for _, s := range b.List {
+		if ds, ok := s.(*ast.DeclStmt); ok {
+			calls := false
+			ast.Inspect(ds, func(x ast.Node) bool {
+				if ce, isCall := x.(*ast.CallExpr); isCall {
+					if id, isId := ast.Unparen(ce.Fun).(*ast.Ident); !isId || id.Name != "new" {
+						calls = true
+					}
+				}
+				return true
+			})
+			if !calls {
+				continue
+			}
+		}
+		return s
 	}
-	return b.List[0]
+	return nil
 }
 
 func callsOnIn(info *types.Info, n ast.Node, obj types.Object, name string) []*ast.CallExpr {
@@ -790,6 +807,12 @@ func wrapCheckFollows(c *Ctx, info *types.Info, g *FG, loop *ast.ForStmt, iter t
 			}
 			if methodCallOn(info, c, iter, "HasNext") && pol {
 				return false // more values follow: no wrap needed on this edge
+			}
+			// the answer of HasNext kept in a local that is defined once, after the GetNext
+			if id, ok := c.(*ast.Ident); ok && pol {
+				if init := initOfIn(info, g.body, id); init != nil && methodCallOn(info, init, iter, "HasNext") && init.Pos() > getNext.Pos() && init.Pos() < loop.End() {
+					return false
+				}
 			}
 			if moreFollow(c, pol) {
 				return false
